@@ -299,10 +299,21 @@ pub fn run(args: &Args, out: &mut Out) {
         }
         out.end();
         idx += 1;
+        let kp = &kps.iter().find(|(n, _)| name.starts_with(n) && (*n != "ed25519" || !name.starts_with("ed25519b"))).unwrap().1;
         for (mname, m) in mutations(&mut rng, base, &all_msgs) {
             out.case(idx, &format!("mut-{name}-{mname} nt=1"));
             for mode in MODES {
                 one(out, mode, &m);
+            }
+            out.end();
+            idx += 1;
+            // the same mutation signed again by the base key: valid again, unless the source or the
+            // key field no longer belong to that key (impersonation attempts)
+            let mut rs = m.clone();
+            rs.signature = Some(kp.sign(&rs.signing_bytes()).unwrap());
+            out.case(idx, &format!("resigned-{name}-{mname} nt=1"));
+            for mode in MODES {
+                one(out, mode, &rs);
             }
             out.end();
             idx += 1;
